@@ -25,6 +25,9 @@ func init() {
 			{ID: "C09.R6", Text: "a change of the group reaches the partition: the client's bus listener calls Stream.Rebalance on every path, also while the stream is closed or reopening (same rule as C11.R7)", Run: c11r7},
 			{ID: "C09.R7", Text: "the partition is computed from the membership in effect: the bus-fed membership implementations record every announcement unconditionally and GetInfo only reads (same rule as C11.R12)", Run: latestInfo},
 			{ID: "C09.R8", Text: "the partition is computed from a membership that exists: GetInfo returns the recorded value or waits for the first (same rule as C10.R16)", Run: infoGetters},
+			{ID: "C09.R9", Text: "the member number the partition is computed from is the configured one: defaulting never rewrites a configured member number or group size (same rule as C17.R1)", Run: c17r1},
+			{ID: "C09.R10", Text: "a reopened vBucket is one this member still owns: reopen goes through openStream, which looks the vBucket up in the current position map at call time and fails for one that left the range (same rule as C12.R3)", Run: c12r3},
+			{ID: "C09.R11", Text: "the partition keeps following the membership: the vBucket discovery is closed only by the client's close path, never by the stream (a rebalance closes the stream, not the discovery)", Run: discoveryClosedOnlyByClient},
 			{ID: "C09.R3", Text: "purity: no globals, goroutines, map ranges; ChunkSlice calls only builtins; Get calls only GetInfo, ChunkSlice and the logger", Run: c09r3},
 		},
 	})
